@@ -70,6 +70,42 @@ def decide(ctx, rule, table, qualname, cell_fn, max_report=6, min_cells=1, key_n
     return cells, mismatches
 
 
+def decide_kinds(ctx, rule, table, qualname, cell_fn, min_cells=1, key_name=None):
+    """
+    Like ``decide`` but ``cell_fn`` classifies a violating cell into a *kind* (``(cell_key, kind_or_None, detail)``);
+    all cells of one kind are one finding, keyed by the kind, with the first cells as witness.
+    """
+    cells = 0
+    kinds = {}
+    sample = None
+    for chooser, outcome in explore(lambda ch: _guard(cell_fn, ch)):
+        if outcome is None:
+            continue
+        if isinstance(outcome, _CellError):
+            raise AnalysisError("table %s/%s undecided at choices %s: %s" % (rule, table, chooser.record(), outcome.error))
+        cell_key, kind, detail = outcome
+        cells += 1
+        if sample is None:
+            sample = {"cell": str(cell_key), "verdict": kind or "conforms"}
+        if kind is not None:
+            entry = kinds.setdefault(kind, {"count": 0, "cells": []})
+            entry["count"] += 1
+            if len(entry["cells"]) < 5:
+                entry["cells"].append("%s: %s" % (cell_key, detail))
+    what = "%s decision table of %s" % (table, qualname.replace("cutplace.", ""))
+    if cells < min_cells:
+        raise AnalysisError("table %s/%s produced %d cells, expected at least %d" % (rule, table, cells, min_cells))
+    if not kinds:
+        ctx.res.ok(rule, what, True, {"cells": cells, "sample": sample}, cells=cells)
+    first = True
+    for kind, entry in sorted(kinds.items()):
+        ctx.res.fail(rule, what + ": " + kind, "%s:%s:%s:%s" % (qualname.replace("cutplace.", ""), rule, key_name or table, kind),
+                     where_of(ctx.model, qualname), "%s: %s in %d of %d cells, e.g. %s" % (table, kind, entry["count"], cells, entry["cells"][0]),
+                     {"cells": entry["cells"]}, cells=cells if first else 0)
+        first = False
+    return cells, kinds
+
+
 class _CellError:
     def __init__(self, error):
         self.error = error
